@@ -48,6 +48,65 @@ func c06ConstsOfType(p *Pkg, typ string) []string {
 	return names
 }
 
+// c06WrittenFields lists (sorted, unique) the fields `recv.f` a method assigns: plain and compound
+// assignments, ++/--, also inside nested blocks and function literals; `recv.f.g = …`, `recv.f[i] = …`
+// count as writes of f. Taking the address of a receiver field is rejected (could alias a write).
+func c06WrittenFields(fd *ast.FuncDecl) ([]string, error) {
+	if fd.Recv == nil || len(fd.Recv.List) != 1 || len(fd.Recv.List[0].Names) != 1 {
+		return nil, fmt.Errorf("no named receiver")
+	}
+	recv := fd.Recv.List[0].Names[0].Name
+	set := map[string]bool{}
+	var bad error
+	var root func(e ast.Expr) string
+	root = func(e ast.Expr) string {
+		switch x := e.(type) {
+		case *ast.SelectorExpr:
+			if id, ok := x.X.(*ast.Ident); ok && id.Name == recv {
+				return x.Sel.Name
+			}
+			return root(x.X)
+		case *ast.IndexExpr:
+			return root(x.X)
+		case *ast.StarExpr:
+			return root(x.X)
+		case *ast.ParenExpr:
+			return root(x.X)
+		}
+		return ""
+	}
+	ast.Inspect(fd.Body, func(n ast.Node) bool {
+		switch x := n.(type) {
+		case *ast.AssignStmt:
+			for _, l := range x.Lhs {
+				if f := root(l); f != "" {
+					set[f] = true
+				}
+			}
+		case *ast.IncDecStmt:
+			if f := root(x.X); f != "" {
+				set[f] = true
+			}
+		case *ast.UnaryExpr:
+			if x.Op.String() == "&" {
+				if f := root(x.X); f != "" {
+					bad = fmt.Errorf("address of receiver field %s taken", f)
+				}
+			}
+		}
+		return true
+	})
+	if bad != nil {
+		return nil, bad
+	}
+	var out []string
+	for f := range set {
+		out = append(out, f)
+	}
+	sort.Strings(out)
+	return out, nil
+}
+
 func init() {
 	register("c06", func(repo string, args []string) (string, error) {
 		p, err := LoadPkg(filepath.Join(repo, "http2"), false)
@@ -129,6 +188,29 @@ func init() {
 			return "", err
 		}
 		b.WriteString(s1 + "\n")
+		// which Framer fields do the read-path methods write? (a new field that accumulates over the
+		// Framer's lifetime must show up here and break the tie with the model's state components)
+		b.WriteString("/-- for each read-path method of Framer: the receiver fields it assigns (sorted) -/\n")
+		b.WriteString("def readerWrittenFields : List (String × List String) :=\n  [")
+		for i, fn := range []string{"ReadFrameHeader", "ReadFrameForHeader", "ReadFrame", "checkFrameOrder", "connError", "readMetaFrame"} {
+			fd, err := p.Func("Framer." + fn)
+			if err != nil {
+				return "", err
+			}
+			fields, err := c06WrittenFields(fd)
+			if err != nil {
+				return "", fmt.Errorf("%s: %w", fn, err)
+			}
+			var q []string
+			for _, f := range fields {
+				q = append(q, "\""+f+"\"")
+			}
+			if i > 0 {
+				b.WriteString(",\n   ")
+			}
+			b.WriteString("(\"" + fn + "\", [" + strings.Join(q, ", ") + "])")
+		}
+		b.WriteString("]\n\n")
 		b.WriteString("end NetVerif.Gen.C06\n")
 		return b.String(), nil
 	})
